@@ -9,7 +9,7 @@ From Coq Require Import List ZArith Bool.
 From PV Require Import lib.Sx lib.Str lib.Result model.TextNodes model.TextRead.
 From PV Require Import spec.SpecTextXml spec.SpecTextLines spec.SpecTextRead.
 From PV Require Import proofs.TextXmlFacts proofs.TextReadVttFacts proofs.TextReadVttTagFacts proofs.TextReadFacts.
-From PV Require Import proofs.TextReadVttDocFacts model.GenText proofs.TextReadEndFacts proofs.TextReadEndVttFacts proofs.TextReadEndVttStripFacts proofs.TextReadEndXmlFacts.
+From PV Require Import proofs.TextReadVttDocFacts model.GenText proofs.TextReadEndFacts proofs.TextReadEndVttFacts proofs.TextReadEndVttStripFacts proofs.TextReadEndVttDocFacts proofs.TextReadEndXmlFacts.
 Import ListNotations.
 Open Scope Z_scope.
 
@@ -200,6 +200,16 @@ Theorem C04_vtt_end_to_end_exact : forall items, forallb vtt_item_ok items = tru
   node_lines (read_vtt true items) = SpecTextRead.display items.
 Proof. exact vtt_end_to_end_exact. Qed.
 Print Assumptions C04_vtt_end_to_end_exact.
+
+(* the whole DOCUMENT (header lines, cue identifiers, NOTE / STYLE / REGION blocks, any number of blank lines): the line loop
+   of the reader model returns one caption per cue, in order, and every caption shows what its cue displays *)
+Theorem C04_vtt_document_end_to_end : forall header bs,
+  forallb line_plain header = true -> wf_blocks bs = true ->
+  Forall (fun items => forallb vtt_item_ok items = true) (cues_of bs) ->
+  vtt_parse true (vtt_document_lines header bs) = map (read_vtt true) (cues_of bs) /\
+  Forall (fun items => ok_lines_a (SpecTextRead.display items) (node_lines (read_vtt true items)) = true) (cues_of bs).
+Proof. exact vtt_document_end_to_end. Qed.
+Print Assumptions C04_vtt_document_end_to_end.
 
 (* the reader's strip on a tokenised line: a token list again, the decoded text differs by white space at the ends only *)
 Theorem C04_vtt_strip_line : forall l, forallb ltok_ok l = true -> exists l2 ws1 ws2,
